@@ -22,7 +22,7 @@ type pipeHalf struct {
 	rclosed  bool  // reader side closed: writes fail
 	deadline time.Time
 	timer    *time.Timer
-	limit    int // >0: bounded buffer, Write blocks while full (slow consumer)
+	limit    int  // >0: bounded buffer, Write blocks while full (slow consumer)
 	wbroken  bool // writes into this half fail although the reader has not closed (peer vanished: RST seen by writers first)
 	total    int64
 }
@@ -45,6 +45,7 @@ type Conn struct {
 	local, remote net.Addr
 	once          sync.Once
 	wdeadline     time.Time
+	wtimer        *time.Timer
 }
 
 // Pair returns the two ends (server, client) of a fresh connection.
@@ -90,21 +91,34 @@ func (c *Conn) Write(p []byte) (int, error) {
 	h := c.wr
 	h.mu.Lock()
 	defer h.mu.Unlock()
+	written := 0
 	for {
 		if h.eof || h.rclosed || h.wbroken {
-			return 0, errClosed
+			return written, errClosed
 		}
-		if h.limit > 0 && len(h.buf) >= h.limit {
-			if !c.wdeadline.IsZero() && !time.Now().Before(c.wdeadline) {
-				return 0, os.ErrDeadlineExceeded
+		if h.limit > 0 {
+			// a bounded socket buffer: what fits goes out, the rest waits for the reader - until the write
+			// deadline, if there is one, and then the call reports how much of p it had got rid of (a short write)
+			room := h.limit - len(h.buf)
+			if room <= 0 {
+				if !c.wdeadline.IsZero() && !time.Now().Before(c.wdeadline) {
+					return written, os.ErrDeadlineExceeded
+				}
+				h.cond.Wait()
+				continue
 			}
-			h.cond.Wait()
-			continue
+			if room < len(p)-written {
+				h.buf = append(h.buf, p[written:written+room]...)
+				h.total += int64(room)
+				written += room
+				h.cond.Broadcast()
+				continue
+			}
 		}
 		break
 	}
-	h.buf = append(h.buf, p...) // copy: callers reuse pooled buffers
-	h.total += int64(len(p))
+	h.buf = append(h.buf, p[written:]...) // copy: callers reuse pooled buffers
+	h.total += int64(len(p) - written)
 	h.cond.Broadcast()
 	return len(p), nil
 }
@@ -169,7 +183,25 @@ func (c *Conn) SetReadDeadline(t time.Time) error {
 }
 
 func (c *Conn) SetWriteDeadline(t time.Time) error {
+	h := c.wr
+	h.mu.Lock()
+	defer h.mu.Unlock()
 	c.wdeadline = t
+	if c.wtimer != nil {
+		c.wtimer.Stop()
+		c.wtimer = nil
+	}
+	if !t.IsZero() && h.limit > 0 { // only a bounded buffer can make a write wait
+		d := time.Until(t)
+		if d < 0 {
+			d = 0
+		}
+		c.wtimer = time.AfterFunc(d, func() {
+			h.mu.Lock()
+			h.cond.Broadcast()
+			h.mu.Unlock()
+		})
+	}
 	return nil
 }
 
@@ -199,6 +231,14 @@ func (c *Conn) PeerClosed() bool {
 // Unread is the number of bytes written to the peer that it has not read yet.
 func (c *Conn) Unread() int {
 	h := c.wr
+	h.mu.Lock()
+	defer h.mu.Unlock()
+	return len(h.buf)
+}
+
+// Pending is the number of bytes the peer has written that this end has not drained yet.
+func (c *Conn) Pending() int {
+	h := c.rd
 	h.mu.Lock()
 	defer h.mu.Unlock()
 	return len(h.buf)
